@@ -26,8 +26,6 @@ TRUSTED = ["model Relic.Model.Zip is hand-written; tied to lib/zipslicer by diff
            "Relic.Spec.Zip is hand-written from APPNOTE; validated against Go archive/zip on every run and CPython zipfile in the thorough tier",
            "Go archive/zip, compress/flate, hash/crc32, CPython zipfile as reference readers"]
 UNPROVED = ["read_agrees_spec_full (false: negation proved, F7a/F7c/F7d/F7e)",
-            "read_agrees_spec_readable (whole archive, under relicReadable): statement only; proved on concrete archives, "
-            "checked dynamically (relic = archive/zip on every generated valid archive)",
             "write_read_roundtrip_full (false: not_write_read_roundtrip_full); write_read_roundtrip_readable: statement only, checked dynamically (rounds 2, 3)",
             "reemit_unmodified_full (false: not_reemit_unmodified_full)",
             "stream_equals_random_access (checked dynamically only)"]
